@@ -638,8 +638,11 @@ class _Interpolator(object):
             idcs[idcs > cvec.size - 2] = cvec.size - 2
             index_vecs.append(idcs)
 
-            norm_distances.append((xi - cvec[idcs]) /
-                                  (cvec[idcs + 1] - cvec[idcs]))
+            node_dists = cvec[idcs + 1] - cvec[idcs]
+            # An axis with a single node has both "neighbors" equal to that
+            # node, any finite distance gives the value at the node
+            node_dists = np.where(node_dists == 0, 1, node_dists)
+            norm_distances.append((xi - cvec[idcs]) / node_dists)
 
         return index_vecs, norm_distances
 
